@@ -3,12 +3,13 @@ C11 — "Arrays behave as index-range maps under any history and stay in bounds"
 
 Property theorems for the 1-D core (`VectorWithOffset<int>` / `Array<1,int>` /
 `NumericVectorWithOffset`), stated over the model of `Model.lean`; proofs of the
-per-operation specifications are in `Proofs.lean`.  `v.abs : Int → Option Int` is the
+per-operation specifications are in `Proofs.lean` (storage operations, `+=`), `ProofsArith.lean`
+(all other arithmetic) and `ProofsMachine.lean` (histories).  `v.abs : Int → Option Int` is the
 index-range map a vector denotes; `Inv` is the storage invariant
 (`begin_allocated ≤ num+start`, `num+start+length ≤ end_allocated`, empty ⇒ start = 0, num = begin).
 An operation returning `none` in the model is an access outside the owned storage.
 -/
-import StirVerif.C11.Proofs
+import StirVerif.C11.ProofsMachine
 
 namespace StirVerif.C11
 open Vec
@@ -16,8 +17,14 @@ open Vec
 /-- **Memory safety + invariant for every history.**  From registers that satisfy the
 invariant (in particular from all-empty registers) every finite sequence of operations
 (resize, grow, reserve, set_offset, assignment, fill, checked get/set, `+=` of numeric
-vectors, base-class `+=`, recycle, `==`) runs without any access outside owned storage
-and ends in registers that satisfy the invariant. -/
+vectors, base-class `+=`, recycle, `==`, and — since the extension of the alphabet — `-= *= /=`
+of numeric vectors (growing), the range-checked base-class `-= *= /=`, the scalar `+= -= *= /=`,
+the binary operators `x op y` and `x op c` of `Array<1>` with assignment of the result,
+`xapyb` and `sapyb` with scalar and with vector factors) runs without any access outside owned
+storage and ends in registers that satisfy the invariant.  `Op` has no other constructors: the
+theorem covers every operation of the alphabet of the correspondence harness.  (An arithmetic
+operation whose operands could overflow 32 bits or divide by zero answers `skip` and changes
+nothing, in the model as in the harness.) -/
 theorem C11_history_safe (ops : List Op) (rs : Regs) (h : RegsInv rs) (hwf : ∀ op ∈ ops, op.WF) :
     ∃ rs' outs, run rs ops = some (rs', outs) ∧ RegsInv rs' ∧ outs.length = ops.length :=
   run_safe ops rs h hwf
@@ -94,7 +101,9 @@ theorem C11_checked_set (v : Vec) (i x : Int) (h : Inv v) :
     obtain ⟨w, a, b, _, _, _, c⟩ := h2 q
     exact ⟨w, a, b, c⟩
 
-/-- **numeric `+=`** grows to the union of the ranges, new cells count as zero. -/
+/-- **numeric `+=`** grows to the union of the ranges, new cells count as zero.
+(`C11_numeric_arith` below states the same for `-= *= /=`; by `C11_numeric_add_is_arith` this
+theorem is its `add` instance, and through `binArith?` it also governs `x + y`.) -/
 theorem C11_numeric_add (w v : Vec) (hw : Inv w) (hv : Inv v) (hne : w.len > 0) :
     ∃ r, w.addAssign? v = some r ∧ Inv r ∧ ∀ i, r.abs i =
         if min w.minIndex v.minIndex ≤ i ∧ i ≤ max w.maxIndex v.maxIndex then
@@ -103,11 +112,201 @@ theorem C11_numeric_add (w v : Vec) (hw : Inv w) (hv : Inv v) (hne : w.len > 0) 
   exact ⟨r, a, b, c hne⟩
 
 /-- **base-class arithmetic**: operands with different index ranges are reported as an error
-and nothing is touched; equal ranges are combined elementwise in bounds. -/
+and nothing is touched; equal ranges are combined elementwise in bounds.
+(`+=` instance; `C11_base_arith_range_errors` / `C11_base_arith_equal_ranges` below cover
+`-= *= /=` as well, which the correspondence harness now also executes.) -/
 theorem C11_arith_range_errors (w v : Vec) (hw : Inv w) (hv : Inv v)
     (hne : ¬ (w.minIndex = v.minIndex ∧ w.maxIndex = v.maxIndex)) :
     w.baseAddAssign? Vec.baseArithGuard v = some none :=
   (baseAdd_spec w v hw hv).2 hne
+
+/-! ### arithmetic other than `+=` -/
+
+/-- `+=` is an instance of the general numeric operator of the extended model, so
+`C11_numeric_add` and `C11_numeric_arith` speak about the same code path. -/
+theorem C11_numeric_add_is_arith (w v : Vec) : numAssign? .add w v = w.addAssign? v :=
+  numAssign_add w v
+
+/-- **numeric `+= -= *= /=` on a non-empty vector** ("arithmetic … surviving elements keep their
+values, elements newly exposed by growing a numeric array are zero"): the result has the union of
+the two ranges; inside the operand's range it is `f(w_i, v_i)` with newly exposed `w_i` counting
+as zero, outside the operand's range the old value, or zero where newly exposed. -/
+theorem C11_numeric_arith (a : Arith) (w v : Vec) (hw : Inv w) (hv : Inv v) (hne : w.len > 0) :
+    ∃ r, numAssign? a w v = some r ∧ Inv r ∧ ∀ i, r.abs i =
+        if min w.minIndex v.minIndex ≤ i ∧ i ≤ max w.maxIndex v.maxIndex then
+          some (match v.abs i with
+            | some b => a.fn ((w.abs i).getD 0) b
+            | none => (w.abs i).getD 0)
+        else none := by
+  obtain ⟨r, h1, h2, h3⟩ := numAssign_spec a w v hw hv
+  refine ⟨r, h1, h2, fun i => ?_⟩
+  rw [h3 i]
+  unfold arithSpec
+  rw [if_neg (by omega)]
+  rfl
+
+/-- **numeric `+= -= *= /=` on an empty vector**: the result has the operand's range and is the
+operand itself (`+=`), its negation (`-=`), or zero (`*=`, `/=`), as the comments in
+NumericVectorWithOffset.inl say ("an object of the same dimensions as v, but filled with 0"). -/
+theorem C11_numeric_arith_empty (a : Arith) (w v : Vec) (hw : Inv w) (hv : Inv v) (he : w.len = 0) :
+    ∃ r, numAssign? a w v = some r ∧ Inv r ∧ ∀ i, r.abs i =
+        (v.abs i).map fun x => match a with
+          | .add => x
+          | .sub => -x
+          | .mul => 0
+          | .div => 0 := by
+  obtain ⟨r, h1, h2, h3⟩ := numAssign_spec a w v hw hv
+  refine ⟨r, h1, h2, fun i => ?_⟩
+  rw [h3 i]
+  unfold arithSpec
+  rw [if_pos he]
+  cases a <;> cases v.abs i <;> simp [Arith.emptyScale]
+
+/-- concrete instance (non-empty case, ranges differing at both ends):
+`[0..2]` filled with 7 `-=` `[1..4]` filled with 3 is `7 4 4 -3 -3` on `[0..4]`. -/
+example : ((Vec.empty.resize? 0 2).bind fun w => (w.fill? 7).bind fun w =>
+      (Vec.empty.resize? 1 4).bind fun v => (v.fill? 3).bind fun v =>
+        (numAssign? .sub w v).bind fun r => r.contents?.map fun cs => (r.minIndex, r.maxIndex, cs))
+    = some (0, 4, [7, 4, 4, -3, -3]) := by decide
+
+/-- concrete instance (empty case): `[] /= [1..2]` is `0 0` on `[1..2]`. -/
+example : ((Vec.empty.resize? 1 2).bind fun v => (v.fill? 3).bind fun v =>
+      (numAssign? .div Vec.empty v).bind fun r => r.contents?.map fun cs => (r.minIndex, r.maxIndex, cs))
+    = some (1, 2, [0, 0]) := by decide
+
+/-- **scalar `+= -= *= /=`** act elementwise and change neither range nor anything else. -/
+theorem C11_scalar_arith (a : Arith) (v : Vec) (x : Int) (h : Inv v) :
+    ∃ r, mapInPlace? (fun e => a.fn e x) v = some r ∧ Inv r ∧ r.minIndex = v.minIndex ∧ r.len = v.len ∧
+      ∀ i, r.abs i = (v.abs i).map fun e => a.fn e x := by
+  obtain ⟨r, h1, h2, h3, h4, _, h5⟩ := mapInPlace_spec (fun e => a.fn e x) v h
+  exact ⟨r, h1, h2, h3, h4, h5⟩
+
+/-- C++ `int` division truncates towards zero: `-7 / 2 = -3`. -/
+example : ((Vec.empty.resize? 0 1).bind fun v => (v.fill? (-7)).bind fun v =>
+      (mapInPlace? (fun e => Arith.div.fn e 2) v).bind (·.contents?)) = some [-3, -3] := by decide
+
+/-- **base-class `+= -= *= /=`, incompatible ranges** ("operations whose operands have incompatible
+index ranges … are reported as errors"): every one of the four operators reports an error and
+touches nothing as soon as the ranges differ at either end.  Extends `C11_arith_range_errors`
+(the `+=` instance) to the whole family. -/
+theorem C11_base_arith_range_errors (a : Arith) (w v : Vec) (hw : Inv w) (hv : Inv v)
+    (hne : ¬ (w.minIndex = v.minIndex ∧ w.maxIndex = v.maxIndex)) :
+    w.baseArith? a Vec.baseArithGuard v = some none :=
+  (baseArith_spec a w v hw hv).2 hne
+
+/-- **base-class `+= -= *= /=`, equal ranges**: combined elementwise, in bounds, range unchanged. -/
+theorem C11_base_arith_equal_ranges (a : Arith) (w v : Vec) (hw : Inv w) (hv : Inv v)
+    (he : w.minIndex = v.minIndex ∧ w.maxIndex = v.maxIndex) :
+    ∃ r, w.baseArith? a Vec.baseArithGuard v = some (some r) ∧ Inv r ∧
+      r.minIndex = w.minIndex ∧ r.len = w.len ∧
+      ∀ i, r.abs i = match w.abs i, v.abs i with
+        | some p, some q => some (a.fn p q)
+        | _, _ => none := by
+  have e : w.start = v.start ∧ w.len = v.len := by
+    unfold Vec.minIndex Vec.maxIndex at he; omega
+  obtain ⟨r, h1, h2, h3, h4, h5⟩ := (baseArith_spec a w v hw hv).1 e
+  refine ⟨r, h1, h2, h3, h4, fun i => ?_⟩
+  rw [h5 i]
+  by_cases c : w.start ≤ i ∧ i < w.start + ↑w.len
+  · obtain ⟨p, hp⟩ := abs_isSome hw c.1 c.2
+    obtain ⟨q, hq⟩ := abs_isSome hv (i := i) (by omega) (by omega)
+    rw [if_pos c, hp, hq]; rfl
+  · rw [if_neg c, abs_eq_getI w, if_neg c]
+
+/-- the hypotheses of both theorems are met by real operands: ranges differing at one end only
+(the case the `&&` guard of the pinned source let through) are an error for `*=` as well … -/
+example : ((Vec.empty.resize? 0 2).bind fun w => (Vec.empty.resize? 0 5).bind fun v =>
+    w.baseArith? .mul Vec.baseArithGuard v) = some none := by decide
+/-- … and equal ranges divide elementwise. -/
+example : ((Vec.empty.resize? 0 1).bind fun w => (w.fill? 9).bind fun w =>
+      (Vec.empty.resize? 0 1).bind fun v => (v.fill? 2).bind fun v =>
+        (w.baseArith? .div Vec.baseArithGuard v).bind fun o => o.bind (·.contents?)) = some [4, 4] := by decide
+
+/-- **binary operators** `d = x op y` of `Array<1>`: the result is the map that `x op= y` would
+produce on a copy of `x` — whatever `d` held before (any capacity, any earlier shrink), and
+also when `d`, `x`, `y` are the same object. -/
+theorem C11_binary_arith (a : Arith) (d x y : Vec) (hx : Inv x) (hy : Inv y) :
+    ∃ r t, binArith? a d x y = some r ∧ numAssign? a x y = some t ∧ Inv r ∧ ∀ i, r.abs i = t.abs i := by
+  obtain ⟨r, h1, h2, h3⟩ := binArith_spec a d x y hx hy
+  obtain ⟨t, g1, _, g3⟩ := numAssign_spec a x y hx hy
+  exact ⟨r, t, h1, g1, h2, fun i => by rw [h3 i, g3 i]⟩
+
+/-- **binary operators with a scalar** `d = x op c`. -/
+theorem C11_binary_scalar (a : Arith) (d x : Vec) (c : Int) (hx : Inv x) :
+    ∃ r, binScalar? (fun e => a.fn e c) d x = some r ∧ Inv r ∧
+      ∀ i, r.abs i = (x.abs i).map fun e => a.fn e c :=
+  binScalar_spec _ d x hx
+
+/-- concrete instance: `d = x * y` with `x = [0..1]` of 3, `y = [1..2]` of 5: `3 15 0` on `[0..2]`
+(outside `y`'s range `x` is kept, the newly exposed element counts as zero). -/
+example : ((Vec.empty.resize? 0 1).bind fun x => (x.fill? 3).bind fun x =>
+      (Vec.empty.resize? 1 2).bind fun y => (y.fill? 5).bind fun y =>
+        (binArith? .mul Vec.empty x y).bind (·.contents?)) = some [3, 15, 0] := by decide
+
+/-- **`xapyb` / `sapyb` with scalar factors, equal ranges**: `this_i = x_i * a + y_i * b` on the
+common range, in bounds; `sapyb(a, y, b)` is the instance `x = *this`. -/
+theorem C11_xapyb (w x : Vec) (a : Int) (y : Vec) (b : Int) (hw : Inv w) (hx : Inv x) (hy : Inv y)
+    (hxr : w.minIndex = x.minIndex ∧ w.maxIndex = x.maxIndex)
+    (hyr : w.minIndex = y.minIndex ∧ w.maxIndex = y.maxIndex) :
+    ∃ r, w.xapyb? x a y b = some (some r) ∧ Inv r ∧ r.minIndex = w.minIndex ∧ r.len = w.len ∧
+      ∀ i, r.abs i = match x.abs i, y.abs i with
+        | some p, some q => some (p * a + q * b)
+        | _, _ => none := by
+  have ex : w.start = x.start ∧ w.len = x.len := by unfold Vec.minIndex Vec.maxIndex at hxr; omega
+  have ey : w.start = y.start ∧ w.len = y.len := by unfold Vec.minIndex Vec.maxIndex at hyr; omega
+  obtain ⟨r, h1, h2, h3, h4, h5⟩ :=
+    (xapyb_spec w x a y b hw hx hy).1 ⟨(sameRange_iff w x).mpr ex, (sameRange_iff w y).mpr ey⟩
+  refine ⟨r, h1, h2, h3, h4, fun i => ?_⟩
+  rw [h5 i]
+  by_cases c : w.start ≤ i ∧ i < w.start + ↑w.len
+  · obtain ⟨p, hp⟩ := abs_isSome hx (i := i) (by omega) (by omega)
+    obtain ⟨q, hq⟩ := abs_isSome hy (i := i) (by omega) (by omega)
+    rw [if_pos c, hp, hq]; rfl
+  · rw [if_neg c, abs_eq_getI x, if_neg (by omega)]
+
+/-- **`xapyb` / `sapyb`, incompatible ranges** are reported as an error, nothing is touched. -/
+theorem C11_xapyb_range_errors (w x : Vec) (a : Int) (y : Vec) (b : Int) (hw : Inv w) (hx : Inv x) (hy : Inv y)
+    (hne : ¬ ((w.minIndex = x.minIndex ∧ w.maxIndex = x.maxIndex) ∧
+              (w.minIndex = y.minIndex ∧ w.maxIndex = y.maxIndex))) :
+    w.xapyb? x a y b = some none := by
+  apply (xapyb_spec w x a y b hw hx hy).2
+  intro ⟨sx, sy⟩
+  apply hne
+  have ex := (sameRange_iff w x).mp sx
+  have ey := (sameRange_iff w y).mp sy
+  unfold Vec.minIndex Vec.maxIndex
+  omega
+
+/-- **`xapyb` / `sapyb` with vector factors**: `this_i = x_i * a_i + y_i * b_i` when all five
+ranges agree, an error (nothing touched) otherwise. -/
+theorem C11_xapyb_vec (w x a y b : Vec) (hw : Inv w) (hx : Inv x) (ha : Inv a) (hy : Inv y) (hb : Inv b) :
+    ((sameRange w x = true ∧ sameRange w y = true ∧ sameRange w a = true ∧ sameRange w b = true) →
+      ∃ r, w.xapybVec? x a y b = some (some r) ∧ Inv r ∧ r.minIndex = w.minIndex ∧ r.len = w.len ∧
+        ∀ i, r.abs i = if w.minIndex ≤ i ∧ i ≤ w.maxIndex then
+            some ((x.abs i).getD 0 * (a.abs i).getD 0 + (y.abs i).getD 0 * (b.abs i).getD 0) else none) ∧
+    (¬ (sameRange w x = true ∧ sameRange w y = true ∧ sameRange w a = true ∧ sameRange w b = true) →
+      w.xapybVec? x a y b = some none) := by
+  obtain ⟨h1, h2⟩ := xapybVec_spec w x a y b hw hx ha hy hb
+  refine ⟨fun hs => ?_, h2⟩
+  obtain ⟨r, g1, g2, g3, g4, g5⟩ := h1 hs
+  refine ⟨r, g1, g2, g3, g4, fun i => ?_⟩
+  rw [g5 i]
+  unfold Vec.minIndex Vec.maxIndex
+  by_cases c : w.start ≤ i ∧ i < w.start + ↑w.len
+  · rw [if_pos c, if_pos (by omega)]
+  · rw [if_neg c, if_neg (by omega)]
+
+/-- `sameRange` is exactly "both ends of the index range agree" -/
+theorem C11_sameRange_iff (w v : Vec) :
+    sameRange w v = true ↔ (w.minIndex = v.minIndex ∧ w.maxIndex = v.maxIndex) := by
+  unfold sameRange; simp
+
+/-- concrete instances: `sapyb(2, y, -1)` on equal ranges, and an error when `y` is longer. -/
+example : ((Vec.empty.resize? 0 1).bind fun w => (w.fill? 5).bind fun w =>
+      (Vec.empty.resize? 0 1).bind fun y => (y.fill? 3).bind fun y =>
+        (w.xapyb? w 2 y (-1)).bind fun o => o.bind (·.contents?)) = some [7, 7] := by decide
+example : ((Vec.empty.resize? 0 1).bind fun w => (Vec.empty.resize? 0 2).bind fun y =>
+      w.xapyb? w 2 y (-1)) = some none := by decide
 
 /-- **equality reflects the contents**. -/
 theorem C11_equality_reflects_contents (a b : Vec) (ha : Inv a) (hb : Inv b) :
